@@ -259,11 +259,24 @@ func CheckC13(opt C13Options) int {
 			continue
 		}
 		r := core.Sub(opt.Seed, "c13", "faults", i)
-		if !r.Chance(2, 5) {
+		// every project that compiled gets faults (only those reach code generation
+		// and the tool chain); a quarter of the others
+		succeeded := len(o.Issues) == 0 && o.Sim.FaultSites["exec"]+o.Sim.FaultSites["writefile"] > 0
+		if !succeeded && !r.Chance(1, 4) {
 			continue
 		}
 		kinds := core.SortedKeys(o.Sim.FaultSites)
-		for f := 0; f < faultPer; f++ {
+		var late []string
+		for _, k := range []string{"exec", "writefile", "removeall", "mkdirall"} {
+			if o.Sim.FaultSites[k] > 0 {
+				late = append(late, k)
+			}
+		}
+		per := faultPer
+		if succeeded {
+			per = 3 * faultPer
+		}
+		for f := 0; f < per; f++ {
 			u := cloneUnit(&cases[i].unit)
 			nf := 1
 			if r.Chance(1, 4) {
@@ -271,11 +284,18 @@ func CheckC13(opt C13Options) int {
 			}
 			for ; nf > 0; nf-- {
 				k := core.Pick(r, kinds)
-				// bias towards the later calls of a kind (code generation, tool chain) half of the time
+				if len(late) > 0 && r.Chance(2, 3) {
+					k = core.Pick(r, late)
+				}
 				n := o.Sim.FaultSites[k]
 				ord := r.Intn(n)
-				if r.Chance(1, 2) && n > 2 {
-					ord = n - 1 - r.Intn(3)
+				// bias towards the last calls of a kind (the linker is the last exec, the
+				// output directory the last mkdir)
+				if r.Chance(1, 2) {
+					ord = n - 1 - r.Intn(2)
+					if ord < 0 {
+						ord = 0
+					}
 				}
 				modes := faultModes[k]
 				if len(modes) == 0 {
